@@ -15,3 +15,19 @@ Theorem C15_prefix_of_full_output : forall dict chunks term more,
   is_prefix (rbytes (rrun dict chunks term)) (out (inflate dict (concat chunks ++ more))).
 Proof. exact (bytes_are_reference_prefix inflate_mono inflate_never_fuel). Qed.
 Print Assumptions C15_prefix_of_full_output.
+
+(* ---- on the faithful engine model (RModel/Engine.v), by erun_sound: whatever the source does after
+   its bytes (t = TErr: it fails), the bytes handed out are a prefix of the reference output of the
+   delivered bytes and of any continuation of them, and no io.EOF is reported unless the delivered
+   bytes already hold a complete stream. *)
+From Verif Require Import Engine EngineRefineSpecTop EngineRefineFinal EngineCorollaries.
+Theorem C15_engine_prefix_of_full_output : forall data more cs bufsize reads,
+  bytes_ok data -> cut_of cs data ->
+  is_prefix (results_bytes (fst (erun_ext bufsize cs Engine.TErr reads))) (out (Inflate.inflate [] (data ++ more))).
+Proof. intros data more cs bufsize reads Hb Hc. exact (engine_bytes_are_prefix_of_any_extension data more cs bufsize Engine.TErr reads Hb Hc). Qed.
+Print Assumptions C15_engine_prefix_of_full_output.
+Theorem C15_engine_no_false_eof : forall data cs bufsize reads,
+  bytes_ok data -> cut_of cs data -> status (Inflate.inflate [] data) <> Done ->
+  ~ In REOF (map snd (fst (erun_ext bufsize cs Engine.TErr reads))).
+Proof. intros data cs bufsize reads Hb Hc Hs. exact (engine_no_eof_on_truncated_or_corrupt data cs bufsize Engine.TErr reads Hb Hc Hs). Qed.
+Print Assumptions C15_engine_no_false_eof.
